@@ -423,7 +423,10 @@ def opConsOf : RM Res := do
         | some cc => bitEqJ6 f cc.from_ && bitEqJ6 t cc.to
         | none => false
       pure (mkRes ok s!"constraints() differ: impl centers {showJ6 c} tol {showJ6 tl} model {showJ6 mc.centers} {showJ6 mc.tolerances}"
-        [("C08.wrapper_constraints", same, "wrapper reports other limits than its core")])
+        [("C08.wrapper_constraints", same, "wrapper reports other limits than its core"),
+         -- the sorting weight is a pure number: whatever constructor built the object, it is the requested one
+         ("C04.weight_kept", (match coreC with | some cc => w == cc.sortingWeight | none => false),
+            s!"sorting weight {w} is not the requested {coreC.map (·.sortingWeight)}")])
 
 /-- hook level: `h_iki K pose => sols`, `h_iki5 K pose j6 => sols` -/
 def opHIki (five : Bool) : RM Res := do
